@@ -81,6 +81,7 @@ class Body:
         self._pred = None
         self._dom = None
         self._pdom = None
+        self._calls = None
 
     # -- basic accessors
     def file(self):
@@ -216,10 +217,11 @@ class Body:
 
     def calls(self):
         """(block index, terminator) for every call terminator in the CFG."""
-        reach = self.reachable()
-        for i, b in enumerate(self.blocks):
-            if i in reach and b['term']['k'] == 'call':
-                yield i, b['term']
+        if getattr(self, '_calls', None) is None:
+            reach = self.reachable()
+            self._calls = [(i, b['term']) for i, b in enumerate(self.blocks)
+                           if i in reach and b['term']['k'] == 'call']
+        return self._calls
 
     def where(self, bi):
         t = self.blocks[bi]['term']
@@ -274,8 +276,12 @@ def rel(f):
 
 class Facts:
     def __init__(self, path):
-        with open(path) as fh:
-            j = json.load(fh)
+        import hashlib
+        with open(path, 'rb') as fh:
+            raw = fh.read()
+        j = json.loads(raw)
+        # content digest without the per-run nonce
+        self.digest = hashlib.sha256(raw.replace(str(j.get('nonce', '')).encode(), b'')).hexdigest()
         self.j = j
         self.path = path
         self.nonce = j['nonce']
